@@ -831,6 +831,10 @@ def m_opt_else(interp, path, args, ret_ty, callee):
         return fork_enum(interp, path, e, {
             1: lambda p: [Outcome(p, "ret", e.variants[1][0])],
             0: lambda p: interp.call_value(p, args[1], [], ret_ty)})
+    if "::map_or::" in n:
+        return fork_enum(interp, path, e, {
+            1: lambda p: interp.call_value(p, args[2], [e.variants[1][0]], ret_ty),
+            0: lambda p: [Outcome(p, "ret", args[1])]})
     raise Refuse("Option combinator " + n)
 
 
@@ -1103,6 +1107,11 @@ def m_map_new(interp, path, args, ret_ty, callee):
     if args:
         raise Refuse("new::<..> with arguments")
     return StructV("SymMap<empty>", [])
+
+
+@model(r"^Box::<.*>::new$", "a box is its content")
+def m_box_new(interp, path, args, ret_ty, callee):
+    return args[0]
 
 
 @model(r"^Vec::<.*>::new$", "empty vector")
